@@ -298,8 +298,8 @@ bool AngularObservations_right_handed_angles(const struct PointData *self);
 #define DY(a, b) ((b)->y_ - (a)->y_)
 #define DZ(a, b) ((b)->z_ - (a)->z_)
 /* call #i of bearing_distance went from point a to point b: d = sqrt(dy^2+dx^2), s = atan2(dy, dx) */
-#define BEARING_OF(i, a, b)                                                                                \
-  (G.sqrt_arg[i] == DY(a, b) * DY(a, b) + DX(a, b) * DX(a, b) && G.atan2_y[i] == DY(a, b) && G.atan2_x[i] == DX(a, b))
+#define SQRT_OF(i, a, b) (G.sqrt_arg[i] == DY(a, b) * DY(a, b) + DX(a, b) * DX(a, b))
+#define ATAN2_OF(i, a, b) (G.atan2_y[i] == DY(a, b) && G.atan2_x[i] == DX(a, b))
 
 /* reduction by whole circles, as floating-point repeated subtraction / addition of 400e4 cc */
 #define SUBN(r, j) ((j) == 0 ? (r) : (j) == 1 ? (r)-400e4 : (j) == 2 ? ((r)-400e4) - 400e4 : (((r)-400e4) - 400e4) - 400e4)
@@ -433,9 +433,10 @@ GV_CANARY("LocalLinearization_h_diff entry");
 __CPROVER_requires(SHAPE2(self, obs) && NONSING(0) && TRIG(0) && PRE_UNK4(U_FX, U_FY, U_TX, U_TY))
 __CPROVER_assigns(self->rhs, self->size, self->maxn, self->coeff, self->index, G, F0->ix_, F0->iy_, T0->ix_, T0->iy_)
 #if LIN_VALUES
-__CPROVER_ensures(BEARING_OF(0, F0, T0))
+__CPROVER_ensures(SQRT_OF(0, F0, T0))
 __CPROVER_ensures(self->rhs == (VALUE(obs) - P.sqrt_ret[0]) * 1e3)
 __CPROVER_ensures(COEF_(U_FY, -P.S[0]) && COEF_(U_FX, -P.C[0]) && COEF_(U_TY, P.S[0]) && COEF_(U_TX, P.C[0]))
+__CPROVER_ensures(ATAN2_OF(0, F0, T0))
 #else
 __CPROVER_ensures(gv_exc == 0 && G.nsqrt == 1 && G.natan2 == 1 && G.nsin == 1 && G.ncos == 1 && TRIG_OF(0))
 __CPROVER_ensures(POST_ROW(ALL4, SUM4, U_FX, U_FY, U_TX, U_TY))
@@ -460,11 +461,12 @@ __CPROVER_requires(PRE_UNK5(U_OR, U_FX, U_FY, U_TX, U_TY))
 __CPROVER_assigns(self->rhs, self->size, self->maxn, self->coeff, self->index, G, gv_exc, SP(obs)->indx_or,
                   F0->ix_, F0->iy_, T0->ix_, T0->iy_)
 #if LIN_VALUES
-__CPROVER_ensures(BEARING_OF(0, F0, T0))
+__CPROVER_ensures(SQRT_OF(0, F0, T0))
 __CPROVER_ensures(gv_exc == 0 ==> G.raw == RAW_direction)
 __CPROVER_ensures(gv_exc == 0 ==> COEF_(U_OR, -1.0))
 __CPROVER_ensures(gv_exc == 0 ==> (COEF_(U_FY, -(KANG(DISTX(0)) * P.C[0])) && COEF_(U_FX, KANG(DISTX(0)) * P.S[0])))
 __CPROVER_ensures(gv_exc == 0 ==> (COEF_(U_TY, KANG(DISTX(0)) * P.C[0]) && COEF_(U_TX, -(KANG(DISTX(0)) * P.S[0]))))
+__CPROVER_ensures(ATAN2_OF(0, F0, T0))
 #else
 __CPROVER_ensures((gv_exc == 0) == (SP(obs)->test_or != 0))
 __CPROVER_ensures(G.nsqrt == 1 && G.natan2 == 1 && G.nsin == 1 && G.ncos == 1 && TRIG_OF(0) && HINTS_EQ(0))
@@ -542,13 +544,13 @@ __CPROVER_assigns(self->rhs, self->size, self->maxn, self->coeff, self->index, G
                   T0->ix_, T0->iy_, T0->iz_)
 #if LIN_VALUES
 __CPROVER_ensures(G.sqrt_arg[0] == DX(F0, T0) * DX(F0, T0) + DY(F0, T0) * DY(F0, T0) &&
-                  G.sqrt_arg[1] == (DX(F0, T0) * DX(F0, T0) + DY(F0, T0) * DY(F0, T0)) + DZ(F0, T0) * DZ(F0, T0) &&
-                  G.acos_arg == DZ(F0, T0) / ZSD)
+                  G.sqrt_arg[1] == (DX(F0, T0) * DX(F0, T0) + DY(F0, T0) * DY(F0, T0)) + DZ(F0, T0) * DZ(F0, T0))
 __CPROVER_ensures(gv_exc == 0 ==> self->rhs == (VALUE(obs) - ZA_COMPUTED) * R2CC)
 __CPROVER_ensures((gv_exc == 0 && !(VALUE(obs) > M_PI)) ==> (COEF_(U_FY, -ZPY) && COEF_(U_FX, -ZPX) && COEF_(U_FZ, -ZPZ)))
 __CPROVER_ensures((gv_exc == 0 && !(VALUE(obs) > M_PI)) ==> (COEF_(U_TY, ZPY) && COEF_(U_TX, ZPX) && COEF_(U_TZ, ZPZ)))
 __CPROVER_ensures((gv_exc == 0 && VALUE(obs) > M_PI) ==> (COEF_(U_FY, ZPY) && COEF_(U_FX, ZPX) && COEF_(U_FZ, ZPZ) &&
                                                            COEF_(U_TY, -ZPY) && COEF_(U_TX, -ZPX) && COEF_(U_TZ, -ZPZ)))
+__CPROVER_ensures(gv_exc == 0 ==> G.acos_arg == DZ(F0, T0) / ZSD)
 #else
 __CPROVER_ensures((gv_exc != 0) == (ZD == 0 || ZSD == 0))
 __CPROVER_ensures(gv_exc == 0 ==> (G.nsqrt == 2 && G.nacos == 1))
@@ -579,11 +581,12 @@ __CPROVER_requires(RAW_OK(RAW_angle)) /* stated precondition, used through LIN_I
 #endif
 __CPROVER_assigns(self->rhs, self->size, self->maxn, self->coeff, self->index, G, F0->ix_, F0->iy_, T0->ix_, T0->iy_, S0->ix_, S0->iy_)
 #if LIN_VALUES
-__CPROVER_ensures(BEARING_OF(0, F0, T0) && BEARING_OF(1, F0, S0))
+__CPROVER_ensures(SQRT_OF(0, F0, T0) && SQRT_OF(1, F0, S0))
 __CPROVER_ensures(G.raw == RAW_angle)
 __CPROVER_ensures(COEF_(U_FY, -K2C2 + K1C1) && COEF_(U_FX, K2S2 - K1S1))
 __CPROVER_ensures(COEF_(U_TY, -K1C1) && COEF_(U_TX, K1S1))
 __CPROVER_ensures(COEF_(U_SY, K2C2) && COEF_(U_SX, -K2S2))
+__CPROVER_ensures(ATAN2_OF(0, F0, T0) && ATAN2_OF(1, F0, S0))
 #else
 __CPROVER_ensures(gv_exc == 0 && G.nsqrt == 2 && G.natan2 == 2 && G.nsin == 2 && G.ncos == 2 && TRIG_OF(0) && TRIG_OF(1) && HINTS_EQ(0) && HINTS_EQ(1))
 __CPROVER_ensures(REDUCED(self))
@@ -635,10 +638,11 @@ __CPROVER_requires(RAW_OK(RAW_azimuth)) /* stated precondition, used through LIN
 #endif
 __CPROVER_assigns(self->rhs, self->size, self->maxn, self->coeff, self->index, G, F0->ix_, F0->iy_, T0->ix_, T0->iy_)
 #if LIN_VALUES
-__CPROVER_ensures(BEARING_OF(0, F0, T0))
+__CPROVER_ensures(SQRT_OF(0, F0, T0))
 __CPROVER_ensures(G.raw == RAW_azimuth)
 __CPROVER_ensures(COEF_(U_FY, -(KANG(DISTX(0)) * P.C[0])) && COEF_(U_FX, KANG(DISTX(0)) * P.S[0]))
 __CPROVER_ensures(COEF_(U_TY, KANG(DISTX(0)) * P.C[0]) && COEF_(U_TX, -(KANG(DISTX(0)) * P.S[0])))
+__CPROVER_ensures(ATAN2_OF(0, F0, T0))
 #else
 __CPROVER_ensures(gv_exc == 0 && G.nsqrt == 1 && G.natan2 == 1 && G.nsin == 1 && G.ncos == 1 && TRIG_OF(0) && HINTS_EQ(0))
 __CPROVER_ensures(G.north == NORTH_GON(self->PD) * G2R)
